@@ -104,43 +104,46 @@ class BasicDBusProtocol(protocol.Protocol):
 
         if self._authenticated:
             self._buffer = self._buffer + data
-            buffer_len = len(self._buffer)
 
-            if self._nextMsgLen == 0 and buffer_len >= 16:
-                # There would be multiple clients using different endians.
-                # Reset endian every time.
-                if self._buffer[:1] != b'l':
-                    self._endian = '>'
-                else:
-                    self._endian = '<'
+            # Deliver every complete message in the buffer. This must be a
+            # loop rather than recursion: a single read may contain thousands
+            # of messages
+            while True:
+                buffer_len = len(self._buffer)
 
-                body_len = struct.unpack(
-                    self._endian + 'I', self._buffer[4:8])[0]
-                harr_len = struct.unpack(
-                    self._endian + 'I', self._buffer[12:16])[0]
+                if self._nextMsgLen == 0 and buffer_len >= 16:
+                    # There would be multiple clients using different endians.
+                    # Reset endian every time.
+                    if self._buffer[:1] != b'l':
+                        self._endian = '>'
+                    else:
+                        self._endian = '<'
 
-                hlen = self.MSG_HDR_LEN + harr_len
+                    body_len = struct.unpack(
+                        self._endian + 'I', self._buffer[4:8])[0]
+                    harr_len = struct.unpack(
+                        self._endian + 'I', self._buffer[12:16])[0]
 
-                padlen = hlen % 8 and (8 - hlen % 8) or 0
+                    hlen = self.MSG_HDR_LEN + harr_len
 
-                self._nextMsgLen = (
-                    self.MSG_HDR_LEN
-                    + harr_len
-                    + padlen
-                    + body_len
-                )
+                    padlen = hlen % 8 and (8 - hlen % 8) or 0
 
-            if self._nextMsgLen != 0 and buffer_len >= self._nextMsgLen:
+                    self._nextMsgLen = (
+                        self.MSG_HDR_LEN
+                        + harr_len
+                        + padlen
+                        + body_len
+                    )
+
+                if self._nextMsgLen == 0 or buffer_len < self._nextMsgLen:
+                    break
+
                 raw_msg = self._buffer[:self._nextMsgLen]
                 self._buffer = self._buffer[self._nextMsgLen:]
 
                 self._nextMsgLen = 0
 
                 self.rawDBusMessageReceived(raw_msg)
-
-                if self._buffer:
-                    # Recursively process any other complete messages
-                    self.dataReceived(b'')
         else:
             if not self._client and self._firstByte:
                 if data[0] != 0:
